@@ -611,7 +611,7 @@ def rule_HI(run: Run) -> RuleResult:
             for it in w.items:
                 ce = it.context_expr
                 f0 = ce.func if isinstance(ce, ast.Call) else ce
-                r_ = run.repo.resolve_expr(mm, f0) if isinstance(f0, (ast.Name, ast.Attribute)) else None
+                r_ = astu.resolve_in_function(run.repo, mm, fn, f0) if isinstance(f0, (ast.Name, ast.Attribute)) else None
                 tgt = None
                 if r_ and r_[0] == "func" and (r_[1].name in ("handle", "disabled") or r_[1] is cur):
                     tgt = r_[1].qualname
